@@ -9,7 +9,7 @@ from .. import harness as H
 from .. import wire as W
 from ..runner import run_monitored
 
-FAMILIES = ["counters", "tos-opcode", "session", "mutated", "noise", "flow", "dse-inflated", "esp32", "capacity"]
+FAMILIES = ["counters", "tos-opcode", "session", "mutated", "noise", "flow", "dse-inflated", "esp32", "capacity", "stress"]
 MUST_REACH = ["parseEmit", "parseQuery", "parseProbe", "parseQueryLargeTlv", "answerHello", "sendProbeMsg",
               "sendLargeTlvResponse", "derive_session_event", "automata_tick", "switch_state_mapping",
               "switch_state_session", "session_table_add", "band_update_stats", "lltd_esp32_handle_frame"]
@@ -92,6 +92,10 @@ def make_scenarios(ctx, count):
                 frames.append(G.f_misc(rng, net, opcode=rng.randint(0, 255) if rng.random() < 0.5 else rng.randint(0, 14), tos=tos)[:mtu])
         elif fam == "noise":
             frames = [G.f_noise(rng, mtu) for _ in range(rng.randint(20, 60))]
+        elif fam == "stress":
+            # an unfriendly platform around ordinary and mutated traffic: allocations and transmits that fail now and then,
+            # an MTU that grows and shrinks while the interface lives on (the scenario lines are added below)
+            frames = G.session_history(rng, net, mtu, rng.randint(40, 90), p_mut=0.15, inflate_discover=False, max_emit=3)
         elif fam in ("session",):
             frames = G.session_history(rng, net, mtu, rng.randint(20, 60), p_mut=0.1, inflate_discover=False)
         else:
@@ -102,7 +106,7 @@ def make_scenarios(ctx, count):
         s.add("FILL %d" % rng.choice([165, 90, 0, 255]))
         s.add("NOW %d" % rng.choice([1, 999, 10 ** 6, 2 ** 40]))
         oplist = []
-        if rng.random() < 0.5:
+        if rng.random() < 0.5 and fam != "stress":
             s.add("AI 0")
             oplist.append(("AI", None))
         nops = 0
@@ -120,14 +124,27 @@ def make_scenarios(ctx, count):
             elif fam == "flow":
                 opn = "W" if r < 0.8 else "LX"
                 s.frame(0, fr, op=opn)
+            elif fam == "stress":
+                opn = "F"               # the frame handler only: a daemon whose automata constructors failed does not go on
+                s.frame(0, fr, op=opn)
             else:
                 opn = "F" if r < 0.7 else ("LX" if r < 0.8 else ("E" if r < 0.9 and fam != "counters" else "F"))
                 s.frame(0, fr, op=opn)
             oplist.append((opn, fr))
             nops += 1
+            if fam == "stress":
+                r2 = rng.random()
+                if r2 < 0.08:
+                    s.add("MTU 0 %d %d" % (rng.choice([576, 1500, 9000, 4096, 300, rng.randint(576, 9216)]), cfg["rxseed"]))
+                elif r2 < 0.2:
+                    s.add("FAULT malloc %d %d" % (rng.randint(1, 4), rng.choice([0, 0, 2, 3])))
+                elif r2 < 0.25:
+                    s.add("FAULT send %d 0" % rng.randint(1, 3))
+                elif r2 < 0.35:
+                    s.add("CLEAR")
             if rng.random() < 0.2:
                 s.add("ADV %d" % rng.choice([0, 1, 100, 999, 1000, 5000, 31000, 61000, 2 ** 33]))
-            if rng.random() < 0.2:
+            if rng.random() < 0.2 and fam != "stress":
                 s.add("K 0")
                 oplist.append(("K", None))
                 nops += 1
